@@ -93,6 +93,91 @@ func resolveSeams(sprog *ssa.Program, inModule func(*ssa.Function) bool, isTest 
 		target[g] = f
 	}
 	out := map[string]string{}
+	// the interface form of the same idiom: `var fsys dirFS = osDirFS{}` with a
+	// stateless (field-less) implementation; dynamic calls through the variable
+	// always reach that implementation's methods
+	impl := map[*ssa.Global]types.Type{}
+	iuses := map[*ssa.Global]*use{}
+	for _, fn := range fns {
+		for _, b := range fn.Blocks {
+			for _, in := range b.Instrs {
+				for _, op := range in.Operands(nil) {
+					g, ok := (*op).(*ssa.Global)
+					if !ok {
+						continue
+					}
+					pt, isP := g.Type().Underlying().(*types.Pointer)
+					if !isP || !types.IsInterface(pt.Elem()) {
+						continue
+					}
+					u := iuses[g]
+					if u == nil {
+						u = &use{}
+						iuses[g] = u
+					}
+					switch x := in.(type) {
+					case *ssa.UnOp:
+						if x.Op != token.MUL {
+							u.escapes = true
+						}
+					case *ssa.Store:
+						if x.Addr == ssa.Value(g) {
+							u.stores = append(u.stores, x)
+						} else {
+							u.escapes = true
+						}
+					default:
+						u.escapes = true
+					}
+				}
+			}
+		}
+	}
+	for g, u := range iuses {
+		if u.escapes || len(u.stores) != 1 {
+			continue
+		}
+		st := u.stores[0]
+		if st.Parent().Name() != "init" || st.Parent().Pkg != g.Pkg {
+			continue
+		}
+		mi, ok := st.Val.(*ssa.MakeInterface)
+		if !ok {
+			continue
+		}
+		sty, isStruct := mi.X.Type().Underlying().(*types.Struct)
+		if !isStruct || sty.NumFields() != 0 {
+			continue
+		}
+		impl[g] = mi.X.Type()
+	}
+	for _, fn := range fns {
+		for _, b := range fn.Blocks {
+			for _, in := range b.Instrs {
+				c, ok := in.(ssa.CallInstruction)
+				if !ok || !c.Common().IsInvoke() {
+					continue
+				}
+				ld, ok := c.Common().Value.(*ssa.UnOp)
+				if !ok || ld.Op != token.MUL {
+					continue
+				}
+				g, ok := ld.X.(*ssa.Global)
+				if !ok || impl[g] == nil {
+					continue
+				}
+				m := sprog.LookupMethod(impl[g], c.Common().Method.Pkg(), c.Common().Method.Name())
+				if m == nil || len(m.Params) == 0 {
+					continue
+				}
+				cc := c.Common()
+				cc.Args = append([]ssa.Value{ssa.NewConst(nil, impl[g])}, cc.Args...)
+				cc.Value = m
+				cc.Method = nil
+				out[strings.TrimPrefix(g.String(), "github.com/tonistiigi/")+"."+m.Name()] = m.String()
+			}
+		}
+	}
 	if len(target) == 0 {
 		return out
 	}
